@@ -133,6 +133,16 @@ where
         domain_size: usize,
         folding_factor: usize,
     ) -> Result<Self, DeserializationError> {
+        // there is one commitment per FRI layer plus the commitment to the remainder; the verifier
+        // takes one layer from the channel per layer commitment
+        if proof.num_layers() + 1 != layer_commitments.len() {
+            return Err(DeserializationError::InvalidValue(format!(
+                "expected {} FRI layers (one per layer commitment), but the proof contains {}",
+                layer_commitments.len().saturating_sub(1),
+                proof.num_layers()
+            )));
+        }
+
         let num_partitions = proof.num_partitions();
 
         let remainder = proof.parse_remainder()?;
